@@ -10,21 +10,21 @@ NA = {
  "C20": "validity of the combinatorial objects produced by the shipped models and their literature counts are run-time values; nothing structural to decide.",
 }
 TECH = {
- "C01": "abstract interpretation (affine forms + Fourier-Motzkin path facts) of the propagation loop, search loop and wake-up table; dependency analysis of propagators vs triggers; who-may-write analysis; interprocedural index-kind inference; intra-function agreement rules on filtering functions (interval sums, 32-bit vector arithmetic)",
- "C02": "typestate over generator paths; partition algebra on abstract post-states of value heuristics; engine soundness and shaving rules shared with C01/C10 (scope table); agreement of candidate test and forced bound in aggregate constraints; coverage of the default decision set (all shared domains)",
+ "C01": "abstract interpretation (affine forms + Fourier-Motzkin path facts) of the propagation loop, search loop and wake-up table; dependency analysis of propagators vs triggers; who-may-write analysis; interprocedural index-kind inference; intra-function agreement rules on filtering functions (interval sums, 32-bit vector arithmetic); intra-function agreement of division-derived bounds with their interval accumulators (rounding tags); typestate of mark arrays; who-may-write lint of the constraint list",
+ "C02": "typestate over generator paths; partition algebra on abstract post-states of value heuristics; engine soundness and shaving rules shared with C01/C10 (scope table); agreement of candidate test and forced bound in aggregate constraints; coverage of the default decision set (all shared domains); division-derived bound agreement; candidate-test dominance in aggregate constraints",
  "C03": "must-precede / must-follow on abstract paths of the optimisation loops; affine equality of tightening stores; flow-sensitive maybe-None analysis of optimisation results; who-may-write lint (no solver code stores into the problem object)",
  "C04": "progress-measure rules on abstract paths; loop-variant derivation (guard measure, monotone pointer, counter sum) with Houdini invariants; structural preconditions of the Hall-interval filtering (sibling cross-check); call-graph closure of address-taken registries (no raise behind a function pointer); push on every path of every value heuristic",
- "C07": "who-may-write + path-condition analysis of enabled-flag stores; return-vocabulary check over the call graph; entailment of path facts for the index / counter / table families of entailment guards; enforce/entail and mirror agreement",
- "C08": "bound-dependency (taint) analysis of filtering functions against per-position trigger masks (effect calls modelled, may-dependences refused); event-mask exactness and write-back completeness on abstract paths",
+ "C07": "who-may-write + path-condition analysis of enabled-flag stores; return-vocabulary check over the call graph; entailment of path facts for the index / counter / table families of entailment guards; enforce/entail and mirror agreement; in-place parameter update lint (effect summaries); who-may-write lint of the constraint list",
+ "C08": "bound-dependency (taint) analysis of filtering functions against per-position trigger masks (effect calls modelled, may-dependences refused); event-mask exactness and write-back completeness on abstract paths; symbolic-offset agreement of the two halves of an enforced ordering; provenance of the trigger vector per constraint (own call in the same iteration)",
  "C09": "abstract interpretation of value heuristics from a symbolic pre-state; interval-chain oracle; bitmask inclusion; dtype agreement of index-carrying arrays",
- "C10": "abstract interpretation of the shaving probe with a callee summary; first-iteration and loop-variant analysis of the probing loop (cursor monotonicity from the value filter passed to the scan)",
+ "C10": "abstract interpretation of the shaving probe with a callee summary; first-iteration and loop-variant analysis of the probing loop (cursor monotonicity from the value filter passed to the scan); inductive range of the bound selector over the probing loop; zero-divisor dominance behind function pointers",
  "C11": "path analysis of worker exits and of the parent receive loop (marker counting, keep-best fold, slot writes, join placement); dispatch-table tracing of the address arrays",
  "C12": "abstract interpretation of Problem.split; affine adjacency and clamp entailment; ownership analysis of the domain lists; lint of copy / pickle hooks",
- "C13": "abstract interpretation of Problem.init (Python level) against the per-constraint cache oracle; offset round-trip equalities; interprocedural index-kind inference (indices, counts, returned positions); sort-guard invalidation and posting-order-list analysis; optional-argument resolution lint (is-None dominance, no truthiness on model integers); who-may-write lint on the problem object",
- "C15": "resolved call-graph role propagation (argument/parameter agreement), dispatch-table tracing, module-level state and mutable-default lint; narrow-dtype arithmetic lint; call-graph closure of address-taken registries; sort-stability lint; who-may-write lint on the problem object",
- "C16": "index-within-extent entailment from path facts for every shape index (table-free classification); assume/guarantee extent analysis of the Hall-interval helpers with inductive invariants; capacity-guard entailment; allocation-shape agreement; clamp-before-use and guard-one-off contradictions; index-kind inference",
+ "C13": "abstract interpretation of Problem.init (Python level) against the per-constraint cache oracle; offset round-trip equalities; interprocedural index-kind inference (indices, counts, returned positions); sort-guard invalidation and posting-order-list analysis; optional-argument resolution lint (is-None dominance, no truthiness on model integers); who-may-write lint on the problem object; dtype agreement of value-carrying arrays; who-may-write lint of the constraint list",
+ "C15": "resolved call-graph role propagation (argument/parameter agreement), dispatch-table tracing, module-level state and mutable-default lint; narrow-dtype arithmetic lint; call-graph closure of address-taken registries; sort-stability lint; who-may-write lint on the problem object; copy-vs-alias lint of constructor arguments; complement-of-truth-value and zero-divisor lints in jitted code",
+ "C16": "index-within-extent entailment from path facts for every shape index (table-free classification); assume/guarantee extent analysis of the Hall-interval helpers with inductive invariants; capacity-guard entailment; allocation-shape agreement; clamp-before-use and guard-one-off contradictions; index-kind inference; sentinel-argument exclusion at subscripts; absolute column of an index applied to a slice",
  "C17": "counter <-> event-site correspondence on abstract paths (exactly-once on event paths, never elsewhere); label/index/aggregator table agreement (dict literal or comprehension over a constant table)",
- "C18": "structural necessary conditions (handle retention, bounded queue read, liveness-dependent exit that leaves the call, no SIGCHLD disposition, no one-shot iterator across the waiting loop) on abstract paths and the syntax tree",
+ "C18": "structural necessary conditions (handle retention, bounded queue read, liveness-dependent exit that leaves the call, no SIGCHLD disposition, no one-shot iterator across the waiting loop) on abstract paths and the syntax tree; unbounded acquire / wait on synchronisation objects shared with the workers",
  "C19": "capacity-guard entailment on abstract paths (dtype range of the level pointer, push extent; assertions establish nothing); lint of wrapping conversions to narrow index types; dtype agreement of index-carrying arrays; narrow-dtype arithmetic lint; error-propagation lint (no exit in finally, no swallowed search error)"
 }
 checks = []
